@@ -215,9 +215,20 @@ pub struct PBranch {
     pub members: Vec<PMember>,
 }
 
+/// token string of an expression, outer parentheses removed (whether the parser keeps, adds or
+/// drops a pair of parentheses around a whole operand is not part of the property)
+pub fn strip_parens(mut e: syn::Expr) -> syn::Expr {
+    loop {
+        match e {
+            syn::Expr::Paren(p) if p.attrs.is_empty() => e = *p.expr,
+            other => return other,
+        }
+    }
+}
+
 pub fn norm_expr(s: &str) -> String {
     match syn::parse_str::<syn::Expr>(s) {
-        Ok(e) => e.to_token_stream().to_string(),
+        Ok(e) => strip_parens(e).to_token_stream().to_string(),
         Err(_) => format!("<unparsable expr: {}>", s),
     }
 }
@@ -230,7 +241,7 @@ pub fn norm_type(s: &str) -> String {
 }
 
 fn exprs(v: &[syn::Expr]) -> Vec<String> {
-    v.iter().map(|e| e.to_token_stream().to_string()).collect()
+    v.iter().map(|e| strip_parens(e.clone()).to_token_stream().to_string()).collect()
 }
 
 pub fn view_action(e: &ActionExpr) -> (String, Vec<String>) {
